@@ -2,6 +2,7 @@ CONSTANTS
   NC = 8
   OffWin = 124
   MaxDiff = 4
+  PrecKinds = {"Type1", "Type3"}
   Fonts <- FontsBuiltin
   Defined <- SampleDefined
   Dev <- AllDev
